@@ -242,12 +242,19 @@ func channelIDForConnection(connID uint32) (uint16, error) {
 	return uint16(connID), nil
 }
 
-func Bag2MCAP(w io.Writer, r io.Reader, opts *mcap.WriterOptions, messageCallbacks ...func([]byte) error) error {
+func Bag2MCAP(
+	w io.Writer, r io.Reader, opts *mcap.WriterOptions, messageCallbacks ...func([]byte) error,
+) (err error) {
 	writer, err := mcap.NewWriter(w, opts)
 	if err != nil {
 		return err
 	}
-	defer writer.Close()
+	defer func() {
+		closeErr := writer.Close()
+		if err == nil {
+			err = closeErr
+		}
+	}()
 
 	err = writer.WriteHeader(&mcap.Header{
 		Profile: "ros1",
